@@ -100,3 +100,24 @@ Proof.
   - vm_compute. reflexivity.
   - intros j Hj. destruct j as [|[|[|j]]]; try lia; split; vm_compute; discriminate.
 Qed.
+
+(* ---- CPIR / CPDR as a whole operation, for the GENERATED Step: the search examines m elements -- the first m-1 differ
+   from A, and either the m-th equals A or the counter is exhausted (m = n; n = BC, 65,536 for 0) --, then stops with
+   HL moved by m, BC = n - m, Z set exactly when the last byte examined equals A, PC behind the instruction; memory is
+   not written; until then PC stays on the instruction ---- *)
+Theorem C09_cpir_cpdr_whole_operation : forall (dec : bool) (m : nat) (n : Z) cpu, WF cpu -> on_cpxr dec cpu ->
+  1 <= Z.of_nat m <= n -> n <= 65536 -> regw (g_BC cpu) = u16 n ->
+  (forall j, (S j < m)%nat -> u8 (ram (g_W cpu) (biter dec j (regw (g_HL cpu)))) <> get_A cpu) ->
+  (Z.of_nat m = n \/ u8 (ram (g_W cpu) (biter dec (pred m) (regw (g_HL cpu)))) = get_A cpu) ->
+  let cpu' := iter m cpu in
+  regw (g_HL cpu') = biter dec m (regw (g_HL cpu)) /\ regw (g_BC cpu') = u16 (n - Z.of_nat m) /\
+  ram (g_W cpu') = ram (g_W cpu) /\ get_A cpu' = get_A cpu /\
+  Z.testbit (get_F cpu') 6 = (get_A cpu =? u8 (ram (g_W cpu) (biter dec (pred m) (regw (g_HL cpu))))) /\
+  g_PC cpu' = u16 (g_PC cpu + 2) /\
+  (forall k, (k < m)%nat -> g_PC (iter k cpu) = g_PC cpu).
+Proof.
+  intros dec m n cpu H Hon Hm Hn Hbc Hne Hl. cbv zeta. rewrite iter_ok by exact H.
+  destruct (cpxr_run impl_unspec dec m n cpu H Hon Hm Hn Hbc Hne Hl) as (A & B & C & D & E & F & G).
+  repeat split; try assumption. intros k Hk. rewrite iter_ok by exact H. apply G, Hk.
+Qed.
+Print Assumptions C09_cpir_cpdr_whole_operation.
